@@ -27,10 +27,22 @@
 #include <utility>
 #include <vector>
 
+#ifdef PGM_INDEX_VERIF
+namespace pgm::verif { struct Access; }
+#endif
+
 namespace pgm {
 
 #define PGM_SUB_EPS(x, epsilon) ((x) <= (epsilon) ? 0 : ((x) - (epsilon)))
 #define PGM_ADD_EPS(x, epsilon, size) ((x) + (epsilon) + 2 >= (size) ? (size) : (x) + (epsilon) + 2)
+
+#ifdef PGM_INDEX_VERIF
+#ifndef PGM_INDEX_VERIF_ROUTE
+#define PGM_INDEX_VERIF_ROUTE(level, first, last)
+#endif
+#else
+#define PGM_INDEX_VERIF_ROUTE(level, first, last)
+#endif
 
 /**
  * A struct that stores the result of a query to a @ref PGMIndex, that is, a range [@ref lo, @ref hi)
@@ -66,6 +78,10 @@ struct ApproxPos {
 template<typename K, size_t Epsilon = 64, size_t EpsilonRecursive = 4, typename Floating = float>
 class PGMIndex {
 protected:
+#ifdef PGM_INDEX_VERIF
+    friend struct ::pgm::verif::Access;
+#endif
+
     template<typename, size_t, size_t, uint8_t, typename>
     friend class BucketingPGMIndex;
 
@@ -141,16 +157,21 @@ protected:
             auto level_begin = segments.begin() + levels_offsets[l];
             auto pos = std::min<size_t>((*it)(key), std::next(it)->intercept);
             auto lo = level_begin + PGM_SUB_EPS(pos, EpsilonRecursive + 1);
+#ifdef PGM_INDEX_VERIF
+            auto verif_first = lo;
+#endif
 
             static constexpr size_t linear_search_threshold = 8 * 64 / sizeof(Segment);
             if constexpr (EpsilonRecursive <= linear_search_threshold) {
                 for (; std::next(lo)->key <= key; ++lo)
                     continue;
                 it = lo;
+                PGM_INDEX_VERIF_ROUTE(l, verif_first - level_begin, lo - level_begin);
             } else {
                 auto level_size = levels_offsets[l + 1] - levels_offsets[l] - 1;
                 auto hi = level_begin + PGM_ADD_EPS(pos, EpsilonRecursive, level_size);
                 it = std::prev(std::upper_bound(lo, hi, key));
+                PGM_INDEX_VERIF_ROUTE(l, lo - level_begin, hi - level_begin);
             }
         }
         return it;
